@@ -28,7 +28,7 @@ pub fn required_ad_classes() -> Vec<String> {
     }
     for s in [
         "node:neg:owned", "node:neg:ref", "node:exp", "node:log", "node:norm_cdf", "node:inv_norm_cdf", "node:abs:pos", "node:abs:neg",
-        "node:pow:owned:zero", "node:pow:ref:one", "node:pow:owned:posint", "node:pow:ref:negint", "node:pow:owned:real", "node:pow:owned:posint:negbase",
+        "node:pow:owned:zero", "node:pow:ref:one", "node:pow:owned:posint", "node:pow:ref:negint", "node:pow:owned:real", "node:pow:owned:posint:negbase", "node:pow:owned:posint:zerobase", "node:pow:ref:one:zerobase",
         "node:sum:0", "node:sum:1", "node:sum:5",
     ] {
         v.push(s.to_string());
@@ -50,7 +50,7 @@ impl Prop for C01 {
         tier.pick(200_000, 20_000_000)
     }
     fn rule(&self) -> String {
-        "Seeded random expression trees (depth<=7, <=40 nodes) over + - * / (Dual.Dual, Dual.f64, f64.Dual, all four owned/borrowed forms), neg, pow(f64), exp, log, norm_cdf, inv_norm_cdf, abs, Iterator::sum, on multi-variable Dual leaves with arbitrary coefficients, shared / unshared / differently ordered variable lists; plus one forced tree per (operator x form x ownership x VarsRelationship) class. Every node of every tree is compared with reference AD (value, each partial, float-operand promotion). distinct_nontrivial counts distinct tree shapes (operators, forms, ownership, leaf wiring; floats ignored) with at least one operator.".into()
+        "Seeded random expression trees (depth<=7, <=40 nodes; thorough: every tenth tree depth<=11, <=90 nodes) over + - * / (Dual.Dual, Dual.f64, f64.Dual, all four owned/borrowed forms), neg, pow(f64), exp, log, norm_cdf, inv_norm_cdf, abs, Iterator::sum, on multi-variable Dual leaves with arbitrary coefficients, shared / unshared / differently ordered variable lists; plus one forced tree per (operator x form x ownership x VarsRelationship) class. Every node of every tree is compared with reference AD (value, each partial, float-operand promotion). distinct_nontrivial counts distinct tree shapes (operators, forms, ownership, leaf wiring; floats ignored) with at least one operator.".into()
     }
     fn assumptions(&self) -> Vec<String> {
         vec![
@@ -68,8 +68,10 @@ impl Prop for C01 {
         let e = if phase == 0 {
             forced_tree(&mut g, idx)
         } else {
-            let depth = 1 + g.r.usize(7);
-            let mut budget = 40;
+            // thorough: a tenth of the trees are deeper / larger than the quick tier ever builds
+            let deep = ctx.tier == Tier::Thorough && idx % 10 == 0;
+            let depth = 1 + g.r.usize(if deep { 11 } else { 7 });
+            let mut budget = if deep { 90 } else { 40 };
             g.tree(depth, &mut budget).0
         };
         let specs = g.leaves.clone();
